@@ -89,6 +89,7 @@ type FuncContract struct {
 	Asserts   []AssertAt
 	Where     string
 	Split     *SplitSpec
+	Trusted   bool // assumed contract on a function of the repository (listed in the evidence)
 }
 
 // SplitSpec: postconditions are proved by exhaustive case split on an integer parameter:
@@ -172,7 +173,7 @@ func mkClause(rest, where string) (Clause, error) {
 	return c, nil
 }
 
-var topKeywords = map[string]bool{"func": true, "extern": true, "define": true, "declare": true, "axiom": true, "lemma": true, "ghost": true, "smt": true, "end": true}
+var topKeywords = map[string]bool{"func": true, "extern": true, "trusted": true, "define": true, "declare": true, "axiom": true, "lemma": true, "ghost": true, "smt": true, "end": true}
 var fnKeywords = map[string]bool{"mode": true, "requires": true, "ensures": true, "panics_iff": true, "may_panic": true, "loop": true,
 	"modifies": true, "uses": true, "opt": true, "ghost": true, "on": true, "pure": true, "terminal": true, "prop": true, "assume": true, "assert": true, "vars": true, "assumed": true, "split": true}
 
@@ -233,9 +234,9 @@ func (cs *Contracts) loadFile(path string, goFile bool) error {
 			cur, curLemma = nil, nil
 			switch w {
 			case "end":
-			case "func", "extern":
+			case "func", "extern", "trusted":
 				ext := false
-				if w == "extern" {
+				if w == "extern" || w == "trusted" {
 					ext = true
 					rest = strings.TrimSpace(strings.TrimPrefix(rest, "func"))
 				}
@@ -243,7 +244,7 @@ func (cs *Contracts) loadFile(path string, goFile bool) error {
 				if _, dup := cs.Funcs[name]; dup {
 					return fmt.Errorf("%s: duplicate contract for %s", where, name)
 				}
-				cur = &FuncContract{Name: name, Extern: ext, File: path, Loops: map[int]*LoopSpec{}, Opts: map[string]string{}, Where: where}
+				cur = &FuncContract{Name: name, Extern: ext, Trusted: w == "trusted", File: path, Loops: map[int]*LoopSpec{}, Opts: map[string]string{}, Where: where}
 				cs.Funcs[name] = cur
 				cs.order = append(cs.order, name)
 			case "define":
